@@ -522,20 +522,28 @@ class KillScenario:
         obs = self.stats.setdefault('stale_copy', dict(cases=0, rewritten=0, same_size_damage_survives=0))
         cmds = (['sync'], ['scrub', '-p', 'bad'])     # (`touch` would modify the shared data files)
 
+        import struct
+        # a VALID file of the same length with other bytes (what an older generation of the same length is): one hash-seed byte changed, re-sealed
+        hp = max(new.find(b'ck'), new.find(b'cu')) + 7          # a byte of the hash seed
+        body = bytes(new[:hp]) + bytes([new[hp] ^ 1]) + bytes(new[hp + 1:-4])
+        variants = {'stale': old, 'truncated': new[:-7], 'extended': new + b'\x00tail',
+                    'bitflip_same_size': bytes(new[:40]) + bytes([new[40] ^ 8]) + bytes(new[41:]),
+                    'valid_same_size': body + struct.pack('<I', L.crc32c(body)), 'missing': None}
+        self.known_same_size = []
+
         def put(wd, j, kind):
             p = os.path.join(wd, self.contents[j])
             if kind == 'missing':
                 os.unlink(p)
                 return
-            data = {'stale': old, 'truncated': new[:-7], 'extended': new + b'\x00tail', 'bitflip_same_size': bytes(new[:40]) + bytes([new[40] ^ 8]) + bytes(new[41:])}[kind]
+            data = variants[kind]
             with open(p, 'wb') as f:
                 f.write(data)
         n = 0
         for j in range(1, self.nc):
-            for kind in ('stale', 'missing', 'truncated', 'extended', 'bitflip_same_size'):
+            for kind in ('stale', 'missing', 'truncated', 'extended', 'bitflip_same_size', 'valid_same_size'):
                 for cmd in cmds:
-                    if kind == 'bitflip_same_size' and cmd != ['sync']:
-                        continue
+                    samesize = kind in ('bitflip_same_size', 'valid_same_size')
                     n += 1
                     wd = self.clone_from('twin', 'stale_%d' % n)
                     try:
@@ -549,8 +557,7 @@ class KillScenario:
                         # model <-> C: LoadChoice.need_write on the sizes the command found, against "did it save"
                         if getattr(self, 'model_exe', None):
                             import common
-                            before = [new if i != j else {'stale': old, 'missing': None, 'truncated': new[:-7], 'extended': new + b'\x00tail',
-                                                         'bitflip_same_size': new}[kind] for i in range(self.nc)]
+                            before = [new if i != j else variants[kind] for i in range(self.nc)]
                             line = 'needwrite ' + ' '.join('-' if c is None else str(len(c)) for c in before)
                             pred = common.run_lines(self.model_exe, [line], shards=1)[0]
                             saved = b'Saving state to' in out
@@ -558,10 +565,15 @@ class KillScenario:
                             if (pred == 'true') != saved:
                                 obs['model_disagree'] = obs.get('model_disagree', 0) + 1
                                 self.drift = getattr(self, 'drift', []) + [dict(rep, model_line=line, model=pred, tool_saved=saved)]
-                        if kind == 'bitflip_same_size':
-                            # the unchanged tree compares sizes only: recorded, reported to the evidence, not judged here
-                            if not same:
-                                obs['same_size_damage_survives'] += 1
+                        if samesize and rc == 0 and not same and cp[0] == new and all(cp[i] == new for i in range(self.nc) if i != j) \
+                                and cp[j] == variants[kind] and new[:8] == b'SNAPCNT3' and b'Saving state to' not in out:
+                            # exactly F-C09-same-size-stale-copy-unnoticed: format 3, a NON-first copy of the SAME size as the first (bit flip or
+                            # another valid generation), a command with nothing else to write, exit 0, no rewrite, copies differ afterwards
+                            obs['same_size_damage_survives'] += 1
+                            self.known_same_size.append(('format-3 array, %d copies: non-first copy %s replaced by a %s of the same size (%d bytes); `%s` has nothing else '
+                                                         'to write, exits 0 without rewriting: the copies are not byte-identical afterwards (copy valid: %r)' % (
+                                                             self.nc, self.contents[j], 'file with one bit flipped' if kind == 'bitflip_same_size' else 'different valid file',
+                                                             len(new), ' '.join(cmd), L.seal_ok(cp[j])), rep))
                             continue
                         if rc != 0:
                             probs.append(('content copy %s %s, first copy intact: `%s` fails (rc=%r)' % (self.contents[j], kind, ' '.join(cmd), rc), rep))
